@@ -18,7 +18,7 @@ IN_CLASSES = ("zero_in", "range_min", "range_max", "just_in_lo", "just_in_hi", "
 OUT_CLASSES = ("just_out_lo", "just_out_hi", "all_ones", "na_minus_1", "sign_lo", "sign_hi", "sign_hi1", "uniform", "zero")
 BOUNDARY = ("range_min", "range_max", "just_in_lo", "just_in_hi", "na", "just_out_lo", "just_out_hi", "all_ones",
             "na_minus_1", "sign_lo", "sign_hi", "sign_hi1", "table_miss", "f_special", "str_multibyte", "str_utf16",
-            "str_empty", "str_max", "str_bytes", "match_foreign")
+            "str_empty", "str_max", "str_bytes", "match_foreign", "match_bitflip")
 
 
 def _unsigned(f: Field, s: int) -> int:
@@ -291,6 +291,17 @@ def payloads(draw, d: Definition, mode: str = "any", pin_match: bool = True, for
                 cname, u, bits = "variable_unsupported", 0, 0
         elif pin_match and f.match is not None:
             cname, u, bits = "match", f.match, f.bits
+        elif f.match is not None and pin_match is not None:
+            # perturb mode (pin_match=False): mostly the definition's own value, sometimes a one-bit neighbour or any value, so that a
+            # payload sits next to the definition in match space (what a wrong mask / constant in the dispatcher would confuse)
+            how = draw(st.sampled_from(["match", "match", "match", "match_bitflip", "match_bitflip", "match_foreign"]))
+            bits = f.bits
+            if how == "match":
+                cname, u = "match", f.match
+            elif how == "match_bitflip":
+                cname, u = "match_bitflip", f.match ^ (1 << draw(st.integers(0, f.bits - 1)))
+            else:
+                cname, u = "match_foreign", draw(st.integers(0, (1 << f.bits) - 1))
         else:
             cl = field_classes(d, f)
             if mode == "benign":
